@@ -77,9 +77,63 @@ class _ThreadingShim:
 # child side
 
 
+_CORPUS = None
+
+
+def corpus():
+    """Single-dialect corpus statements harvested from the repository's own tests (no metadata, no special config):
+    for these the qualified rendering is not built textually; the relation checked is the one the property implies
+    for one and the same text - the result under default S equals the result under no default with the
+    placeholder schema replaced by S."""
+    global _CORPUS
+    if _CORPUS is None:
+        import os as _os
+
+        from ..util import VERIF_DIR
+
+        with open(_os.path.join(VERIF_DIR, "corpus", "corpus.json")) as f:
+            items = json.load(f)
+        # inputs pinned as open findings of C11 (hash-seed dependent export) are not comparable across zygotes
+        from ..framework import load_known
+
+        skip = {" ".join(e["input"]["sql"].split()) for e in load_known("C11") if e.get("status") == "open" and "input" in e}
+        _CORPUS = [it for it in items if not it.get("meta") and not it.get("cfg") and "<default>" not in it["sql"] and "zz9" not in it["sql"].lower()
+                   and " ".join(it["sql"].split()) not in skip]
+    return _CORPUS
+
+
+def _subst(o, S):
+    if isinstance(o, str):
+        return o.replace("<default>", S)
+    if isinstance(o, list):
+        return [_subst(x, S) for x in o]
+    if isinstance(o, dict):
+        return {k: _subst(v, S) for k, v in o.items()}
+    return o
+
+
+def _resort(d):
+    # substitution can change the sorted order of name lists: compare the corpus class order-insensitively
+    out = {}
+    for k, v in d.items():
+        if isinstance(v, list):
+            out[k] = sorted(v, key=lambda x: json.dumps(x, sort_keys=True))
+        elif isinstance(v, str):
+            out[k] = sorted(v.splitlines())
+        else:
+            out[k] = v
+    return out
+
+
 def analyse(tid: str, schema_in_text, dialect=None):
     from sqllineage.runner import LineageRunner
 
+    if tid.startswith("corpus:"):
+        it = corpus()[int(tid.split(":")[1])]
+        d = canon.dump(LineageRunner(it["sql"], dialect=it["dialect"]), ACC)
+        if schema_in_text:  # reference side: what the same text gives under no default, placeholder replaced
+            d = _subst(d, schema_in_text)
+        return _resort(d)
     _id, d, sql = TPL[tid]
     return canon.dump(LineageRunner(render(sql, schema_in_text), dialect=d), ACC)
 
@@ -92,6 +146,13 @@ def reference(arg: dict) -> dict:
     for tid, S in arg["specs"][0]["cases"]:
         out[f"{tid}|{S}"] = analyse(tid, S)
     return {"runs": [{"refs": out}]}
+
+
+def _desc(tid):
+    if tid.startswith("corpus:"):
+        it = corpus()[int(tid.split(":")[1])]
+        return f"{it['dialect']}: `{' '.join(it['sql'].split())[:160]}`"
+    return f"{TPL[tid][1]}: `{render(TPL[tid][2], None)}`"
 
 
 _tracer = None
@@ -179,7 +240,7 @@ def run_one(spec: dict) -> dict:
             k = [a for a in ACC if got.get(a) != want.get(a)]
             violate(
                 "default_schema_not_equivalent",
-                f"template {tid} ({TPL[tid][1]}) `{render(TPL[tid][2], None)}` under default {eff!r} via {mech} "
+                f"template {tid} ({_desc(tid)}) under default {eff!r} via {mech} "
                 f"(process imported with {ENVVAR}={pre!r}) differs from the qualified rendering in {k[:3]}: "
                 f"got {json.dumps(got[k[0]])[:300]} expected {json.dumps(want[k[0]])[:300]}",
                 t.idx,
@@ -271,6 +332,7 @@ def execute(arg):
 def compute_refs(pool) -> dict:
     mod = sys.modules[__name__]
     cases = [[t[0], S] for t in TEMPLATES for S in [None] + SCHEMAS + ["imp"]]
+    cases += [[f"corpus:{i}", S] for i in range(len(corpus())) for S in [None, "zz9", "s1", "imp"]]
     chunks = [cases[i::16] for i in range(16)]
     jobs = [{"key": {"hash_seed": 0, "env": {}}, "module": mod.__name__, "fn": "reference", "arg": {"specs": [{"cases": c}]}, "wall_s": 300.0} for c in chunks if c]
     refs = {}
@@ -300,6 +362,12 @@ def key_of(spec):
 def gen(seed) -> dict:
     g = stream(seed, "gen")
     tids = [t[0] for t in TEMPLATES]
+    schemas = SCHEMAS
+    if g.random() < 0.25:
+        # this run draws its statements from the harvested corpus instead of the templates
+        n_c = len(corpus())
+        tids = [f"corpus:{g.randrange(n_c)}" for _ in range(6)]
+        schemas = ["zz9", "s1"]  # the defaults for which corpus references are computed
     pre = g.choice([None, None, "imp", "imp", "s1"])
     mode = g.choice(["scoped_threads", "scoped_threads", "env_history", "preimport"])
     threads = []
@@ -309,7 +377,7 @@ def gen(seed) -> dict:
         for _ in range(n):
             prog = []
             for _ in range(g.choice([1, 2, 3])):
-                prog.append({"tpl": g.choice(tids), "S": g.choice(SCHEMAS), "mech": "scoped"})
+                prog.append({"tpl": g.choice(tids), "S": g.choice(schemas), "mech": "scoped"})
             threads.append(prog)
         if g.random() < 0.6:
             operator = [g.choice(SCHEMAS + [None, "imp"]) for _ in range(g.choice([2, 3, 4, 6]))]
@@ -317,7 +385,7 @@ def gen(seed) -> dict:
         prog = []
         for _ in range(g.choice([2, 3, 4])):
             m = g.choice(["env", "env", "scoped", "none"])
-            S = g.choice(SCHEMAS)
+            S = g.choice(schemas)
             if m == "none":
                 if pre:
                     m, S = "preimport", pre
@@ -351,6 +419,19 @@ def sweep() -> list[dict]:
             n += 1
             out.append({"seed": 9000 + n, "pre_env": ({ENVVAR: pre} if pre else {}), "hash_seed": 0, "threads": [progs], "operator": [],
                         "sched": "sticky", "line": False})
+    n_c = len(corpus())
+    for pre in (None, "imp"):
+        for lo in range(0, n_c, 40):
+            progs = []
+            for i in range(lo, min(n_c, lo + 40)):
+                progs.append({"tpl": f"corpus:{i}", "S": "zz9", "mech": "scoped"})
+                if (i + (1 if pre else 0)) % 2 == 0:
+                    progs.append({"tpl": f"corpus:{i}", "S": "s1", "mech": "env"})
+                else:
+                    progs.append({"tpl": f"corpus:{i}", "S": pre, "mech": "preimport" if pre else "none"})
+            n += 1
+            out.append({"seed": 9000 + n, "pre_env": ({ENVVAR: pre} if pre else {}), "hash_seed": 0, "threads": [progs], "operator": [],
+                        "sched": "sticky", "line": False, "corpus_sweep": True})
     return out
 
 
